@@ -203,7 +203,6 @@ def configs_for(tier, seed):
                   for c in (None, 1, 2, -1, -2) if len(range(*slice(a, b, c).indices(2))) > 0]
         add("su", "two01", (1, 2), pls=su_pls, ops=allsl2 + [op("PL", n=2)], variant=5, maxpos=4)
     # --- discretisation stars
-    ndisc0 = cid[0]
     if thorough:
         fam = [(1, range(0, 14), [(1, 1), (1, 2), (5, 3)], None, "dy"),
                (2, range(0, 14), [(1, 1), (1, 2), (5, 3)], None, "dy"),
